@@ -325,7 +325,7 @@ def _explore(rep, tier, seed, proxy):
                     fail('refit-differs', 're-fitting the point isotherm generated from a %s model gives another curve (max deviation/range %.3g)' % (k, d3), replay, k)
                 else:
                     nontrivial.add(('refit', k, len(pts)))
-            else:
+            elif oc3 != 'CalculationError':      # a reported non-convergence of the optimiser returns no curve: not judged
                 fail('refit-failed', 're-fitting the point isotherm generated from a %s model raised %s' % (k, oc3), replay, k)
 
     # ---------------- B: error identity / contract / bounds on noisy increasing data, every model; user bounds and guesses
@@ -706,6 +706,10 @@ def classify(kind, replay, model=None):
         # rows not in increasing order: the default start is taken from the FIRST row (K ~ n_0 / p_0 / (1.1 max n - n_0)); from the highest point
         # least_squares ends in a local minimum of the three-parameter Temkin approximation
         return 'C12:temkin-start-from-first-row-order-dependent'
+    if kind in ('units-loading', 'units-material') and model == 'JensenSeaton' and replay.get('max_loading_in_new_units', 1.0) > 50:
+        # Jensen-Seaton starts from a = 1 (a capacity, in loading units) whatever the data: with loadings in the hundreds / thousands
+        # (per kg instead of per g) least_squares ends in another local minimum
+        return 'C12:jensenseaton-start-capacity-fixed-number'
     if kind in ('units-loading', 'units-material') and replay.get('max_loading_in_new_units', 1.0) < 0.05:
         # loadings expressed in a unit that makes them numerically small (mmol -> mol): least_squares stops on its ABSOLUTE gradient tolerance
         return 'C12:small-loading-magnitude-early-termination'
